@@ -338,6 +338,7 @@ def run(ctx):
              "would truncate the fitted values before the metric is taken)")
     from . import detectors as _d
     _d.dtype_guard(rc, "D-dtype", ["metrics", "linear_fit"])
+    section(rc, _no_narrowing_cast)
     from . import c17 as _c17
     _c17._sec_intwidth(rc, "N-int", INT_SHAPES)
     res.extra_coverage.update({"programs": programs, "disagreements_checked": len(res.findings)})
@@ -351,6 +352,45 @@ def run(ctx):
     _hidden_state(rc, "H1", sorted(INT_SHAPES), "metrics and fit helpers")
     section(rc, _enum_typing)
     res.require_instances("C16 programs compared", programs, 30)
+
+
+_NARROW_NAMES = {"int", "bool"}
+_NARROW_PREFIXES = ("int", "uint", "bool", "float16", "float32", "half", "single", "longlong", "short", "byte", "ubyte")
+
+
+def _narrow_type(e):
+    """The text of a literal dtype argument that cannot hold a float64 value exactly (integer / bool / narrow float), else None."""
+    if isinstance(e, ast.Name) and e.id in _NARROW_NAMES:
+        return e.id
+    if isinstance(e, ast.Attribute) and isinstance(e.value, ast.Name) and e.value.id in ("np", "numpy") and e.attr.startswith(_NARROW_PREFIXES):
+        return "np." + e.attr
+    if isinstance(e, ast.Constant) and isinstance(e.value, str) and (e.value.startswith(_NARROW_PREFIXES) or e.value[:1] in ("i", "u", "b", "?")
+                                                                      or e.value in ("f2", "f4", "e", "f", "<f4", "<f2")):
+        return repr(e.value)
+    return None
+
+
+def _no_narrowing_cast(rc: RuleCtx):
+    """D-dtype, second half: every value of metrics / linear_fit is a real quantity (a coordinate, a fitted value, an error, a
+    coefficient) - none is an index.  The value domain reads `.astype(T)` as the identity (it is one for float64), so a cast to a
+    literal integer / bool / narrow float type is decided here, on the call itself: it truncates the value the formulas are about."""
+    res = rc.res
+    n = 0
+    for mod in rc.ctx.repo.package_modules():
+        if mod.short not in ("metrics", "linear_fit"):
+            continue
+        for c in ast.walk(mod.tree):
+            if not (isinstance(c, ast.Call) and isinstance(c.func, ast.Attribute) and c.func.attr in ("astype", "view")):
+                continue
+            n += 1
+            targ = c.args[0] if c.args else next((k.value for k in c.keywords if k.arg == "dtype"), None)
+            t = _narrow_type(targ) if targ is not None else None
+            if t is not None:
+                res.violation("D-dtype", mod, mod.enclosing_function_name(c), c,
+                              f"a real-valued quantity is cast to {t}: the fitted values / errors are truncated (or lose precision far beyond rounding) "
+                              "before the metric is taken", norm_text(c), "no cast of a real value to an integer, bool or narrow float type",
+                              construct=f"narrowing cast {mod.short}.{mod.enclosing_function_name(c)}")
+    res.ok("D-dtype", "metrics+linear_fit:casts", f"{n} astype/view call(s): none to a literal integer / bool / narrow float type")
 
 
 _JIT_DECOS = ("jit", "njit", "numba.jit", "numba.njit", "nb.jit", "nb.njit")
